@@ -35,11 +35,11 @@ CLAIMS = {
  'C09': ("Hir.complexity is the documented rule as a Lean function on the captured HIR; complexity_le_twice_len: every string matched by a pattern is at least half its default priority long, hence literal_never_beaten; recorded priorities of every leaf (regex, skip, token, explicit) compared with the rule.",
          "the winner/ambiguity outcome for literal-vs-regex pairs is C01/C08.",
          "Lean theorem on the priority rule + per-leaf correspondence"),
- 'C10': ("lit_language (a literal's language is its byte string) and equivB_sound (proved language-equivalence checker): every token/regex/skip with and without ignore(case) is paired with an independently written (?i:...) reference form and proved equivalent for all strings on the captured HIRs; sampled strings additionally against the regex crate.",
+ 'C10': ("lit_language (a literal's language is its byte string) and equivB_sound (proved language-equivalence checker): every token/regex/skip with and without ignore(case) is paired with an independently written (?i:...) reference form and proved equivalent for all strings on the captured HIRs; sampled strings additionally against the regex crate; unescape_escape (Subst.lean): the text Literal::escape writes for a case-insensitive literal (str or byte string, every metacharacter, bytes above 0x7F as \\xNN) reads back as exactly the literal's bytes, and the predicted text is compared with what Pattern::compile receives.",
          "the Unicode case-folding tables themselves are regex-syntax's (trusted as the oracle the property names).",
          "proved equivalence checker per definition + regex-crate differential"),
- 'C11': ("equivB_sound: every pattern with (?&name) references is proved equivalent (all strings) to the pattern obtained by independent inlining as a non-capturing group with the subpattern's own Unicode mode; undefined names must be rejected.",
-         "partial by nature: group scoping is regex-syntax's; definitions are sampled.",
+ 'C11': ("equivB_sound: every pattern with (?&name) references is proved equivalent (all strings) to the pattern obtained by independent inlining as a non-capturing group with the subpattern's own Unicode mode; undefined names must be rejected. Text level (Subst.lean, a model of Subpattern::new, Subpatterns::new and subst_subpatterns): build_eq_inline / leaf_eq_inline (for every list of subpatterns defined before use the sequential splice hands the regex parser exactly the recursive inlining of (?u:src) / (?-u:src), which does not depend on the order), subst_sealed_noRefs / leaf_noRefs (no reference survives the single pass), subst_none_iff_undefined; the model's predicted regex sources are compared with what Pattern::compile really receives (hook lines CSRC) for every family definition.",
+         "partial by nature: group scoping is regex-syntax's; definitions are sampled; the test compile of a subpattern is a parameter of the text model.",
          "proved equivalence checker per definition"),
  'C12': ("modes_agree: one well-formed graph, no root edge on a continuation byte, matches ending on char boundaries (C04) => lexing as str and as [u8] gives the same Ok items with the same spans and the same list of bytes covered by errors (byte mode splits a rounded-up error into one-byte errors); every str-mode corpus definition is compiled a second time with utf8 = false and both compiled lexers are run on the same valid UTF-8 inputs; captured graphs compared; root checked.",
          "acceptance of non-UTF-8 patterns only in byte mode is decided by utf8ClosedB in C04 and exercised in C19; byte-mode lexing of arbitrary bytes is part of C01/C02's corpus.",
@@ -60,7 +60,7 @@ CLAIMS = {
          "--format (rustfmt) not exercised; 'denotes Logos' = last path segment is Logos.",
          "Lean theorems on the rewrite and CLI models + structural correspondence with the real binary"),
  'C18': ("Model of AttributeParser::next and parse_definition over abstract token trees; allNested_render (the tokenizer reads back exactly the items written, in any order), named_args_perm (every permutation of well-formed named arguments parses to the same canonical Definition), parseArgs_errors_iff (acceptance depends only on the multiset of arguments); group_then_assign_counterexample proves the code as found violated it; all permutations of every argument subset run through the real derive and compared (verdict, diagnostics, leaves, generated code), the model compared with the real parser on well-formed and malformed lists.",
-         "equivalence of lexers under permutation of #[logos(...)] items is checked on captured leaves (order-insensitive), not proved.",
+         "permutation of #[logos(...)] items: for subpattern items build_perm / compileCalls_perm_items prove that any two orders keeping every subpattern defined before its use give the same regex source for every leaf (text model Subst.lean, tied by predicted-vs-real Pattern::compile sources); for the remaining items equivalence is checked on captured leaves (order-insensitive), not proved.",
          "Lean theorems on the tokenizer model + all-permutations correspondence"),
  'C19': ("greedyFixed_iff: the repaired greedy-dot check is equivalent to the declarative 'an unbounded greedy repetition of a dot occurs at some depth, possibly inside capture groups' (greedyFound_misses_*: the check as found was not); variantFixed_never_panics / variantFixed_accepts_only for the variant-shape decision; nullable_iff for the empty-match decision; a malformed stream (variant shapes, duplicated and malformed arguments, nullable patterns, look-behind, unsupported features, greedy dots at every depth, undefined subpatterns, non-UTF-8 in str mode, argument-level mutations) runs through logos_codegen::generate under catch_unwind and through rustc as a real derive on stable.",
          "partial: the model covers logos's decision logic, not syn or rustc; one known finding (resource exhaustion on a{1001}{1001}{1001}) is recorded, not repaired.",
